@@ -39,7 +39,7 @@ Proof.
                  end = 0).
   { destruct w as [|Gw fw cw rw|rsw csw].
     - exact Hj.
-    - rewrite andb_false_r in Hj. exact Hj.
+    - cbn [andb] in Hj. exact Hj.
     - destruct (increasing_in m rsw && increasing_in n csw && Nat.leb (length rsw) 4 &&
                 negb (graphic_bf (length rsw) (length csw) (support (submat M rsw csw))) && true);
         [discriminate|exact Hj]. }
